@@ -1,10 +1,11 @@
 import Emboss.Model.ViewObs
 import Emboss.Model.Synth
+import Emboss.Model.ViewFrag
 import Driver.Util
 /-!
 Line-protocol driver `model_c01` for C01 / C04 / C20 (shared).
 
-  IR <sexpr>      load a module (harness/lib/irpack.py) -> `ok <n> wf=<moduleWF> synth=<#sizeIsSynth> fuel=<#fuelOK>` | `bad-ir`
+  IR <sexpr>      load a module (harness/lib/irpack.py) -> `ok <n> wf=<moduleWF> csm=<moduleConstMatch> dyn=<moduleNoDynFixed> synth=<#sizeIsSynth> cov=<#structClosedFolds> ref=<#structInFragment> refm=<moduleInFragment> fuel=<#fuelOK>` | `bad-ir`
   OBS <Struct> <params…> <hex|->              -> the observation line cppdrv prints for the real code
   EQ  <Struct> <params…> <hexA> <hexB>        -> `EQ a<ok> b<ok> e<..> r<..>` (e/r only when both Ok)
   CP  <Struct> <params…> <hexSrc> <hexDst>    -> `CP t<0|1> <hexDst'> <hexSrc'>`
@@ -179,8 +180,12 @@ def handle (st : State) (line : String) : State × String :=
     | some m =>
       let oks := (m.structs.filter (fun sd => fuelOK m fuel sd)).map (·.name)
       ({ m := m, okStructs := oks },
-        "ok " ++ toString m.structs.length ++ " wf=" ++ b01 (moduleWF m) ++
+        "ok " ++ toString m.structs.length ++ " wf=" ++ b01 (moduleWF m) ++ " csm=" ++ b01 (moduleConstMatch m) ++
+        " dyn=" ++ b01 (moduleNoDynFixed m) ++
         " synth=" ++ toString (m.structs.filter sizeIsSynth).length ++
+        " cov=" ++ toString (m.structs.filter structClosedFolds).length ++
+        " ref=" ++ toString (m.structs.filter (Emboss.ViewRef.structInFragment m)).length ++
+        " refm=" ++ b01 (Emboss.ViewRef.moduleInFragment m) ++
         " fuel=" ++ toString oks.length)
     | none => (st, "bad-ir")
   | op :: name :: args =>
